@@ -63,6 +63,8 @@ type ArchiveDecoder struct {
 	d    FormatDecoder
 	dir  string
 	last interface{}
+	// rooted is set once the root entry of the archive has been decoded
+	rooted bool
 }
 
 // validFilename returns true if name can be used as the name of an entry in
@@ -168,6 +170,13 @@ loop:
 			return nil, fmt.Errorf("unsupported element %s in archive", reflect.TypeOf(d))
 		}
 	}
+
+	// Only the root entry of an archive comes without a filename element. Any other
+	// entry without one would take the place of the directory being unpacked into.
+	if name == "" && a.rooted {
+		return nil, InvalidFormat{"entry without filename in archive"}
+	}
+	a.rooted = true
 
 	// If it doesn't have a payload or is a device/symlink, it must be a directory
 	if payload == nil && device == nil && symlink == nil {
